@@ -21,7 +21,7 @@ Mul(d, a, b) == Tick /\ loose' = [loose EXCEPT ![d] = 0] /\ hist' = Append(hist,
 Un(op, d, a) == Tick /\ loose' = [loose EXCEPT ![d] = 0] /\ hist' = Append(hist, [op |-> op, d |-> d, a |-> a])
 SqN(d, a, n) == Tick /\ loose' = [loose EXCEPT ![d] = 0] /\ hist' = Append(hist, [op |-> "square_repeatdly", d |-> d, a |-> a, n |-> n])
 Obs(op, a) == Tick /\ UNCHANGED loose /\ hist' = Append(hist, [op |-> op, a |-> a])
-Eq(a, b) == Tick /\ UNCHANGED loose /\ hist' = Append(hist, [op |-> "eq", a |-> a, b |-> b])
+Eq(a, b) == Tick /\ UNCHANGED loose /\ hist' = Append(hist, [op |-> IF (a + b + nops) % 2 = 0 THEN "eq" ELSE "ne", a |-> a, b |-> b])
 \* the same value held in two limb representations must compare equal: d := from_bytes(to_bytes(a)); a == d; d == a
 EqSame(d, a) == /\ d # a /\ nops + 3 <= MaxOps /\ nops' = nops + 3 /\ loose' = [loose EXCEPT ![d] = 0]
                 /\ hist' = hist \o <<[op |-> "recanon", d |-> d, a |-> a], [op |-> "eq", a |-> a, b |-> d], [op |-> "eq", a |-> d, b |-> a]>>
